@@ -236,8 +236,13 @@ func main() {
 		replayFile = os.Args[3]
 		tier = "quick"
 	}
-	if t := os.Getenv("VERIF_TIER"); t != "" && replayFile == "" && (t == "quick" || t == "thorough") {
-		tier = t
+	// the explicit argument wins; VERIF_TIER only fills in when the argument is not a tier
+	if tier != "quick" && tier != "thorough" {
+		if t := os.Getenv("VERIF_TIER"); t == "quick" || t == "thorough" {
+			tier = t
+		} else {
+			tier = "quick"
+		}
 	}
 	chk, ok := checks[id]
 	if !ok {
